@@ -37,8 +37,8 @@ type step struct {
 }
 
 type runner struct {
-	c      *hx.Ctx
-	id     int
+	c       *hx.Ctx
+	id      int
 	scratch []byte
 }
 
